@@ -37,7 +37,7 @@ def generate(ctx, rng):
     ntriples = 14 if quick else 400
     for t in range(ntriples):
         base = {"token": rng.randbytes(64), "key": rng.randbytes(32), "nonce": rng.randbytes(32),
-                "key_form": rng.choice(["bytes", "hex"]), "token_form": rng.choice(["bytes", "hex"]),
+                "key_form": rng.choice(["bytes", "hex", "HEX"]), "token_form": rng.choice(["bytes", "hex", "HEX"]),
                 "prior": rng.random() < 0.4, "tid": t}
         yield ("genuine", t), {**base, "family": "genuine"}
         for part in range(4):
@@ -62,11 +62,16 @@ def generate(ctx, rng):
                                        "tid": 20000 + j, "family": "genuine"}
     for j in range(60 if quick else 3000):
         yield ("genuine-extra", j), {"token": rng.randbytes(64), "key": rng.randbytes(32), "nonce": rng.randbytes(32),
-                                     "key_form": rng.choice(["bytes", "hex"]), "token_form": rng.choice(["bytes", "hex"]),
-                                     "prior": False, "tid": 10000 + j, "family": "genuine"}
+                                     "key_form": rng.choice(["bytes", "hex", "HEX"]), "token_form": rng.choice(["bytes", "hex", "HEX"]),
+                                     "prior": False, "tid": 10000 + j, "family": "genuine",
+                                     # hex strings with leading zero digits / zero bytes
+                                     **({"token": bytes([0, rng.randrange(16)]) + rng.randbytes(62), "key": bytes([rng.randrange(16)]) + rng.randbytes(31)}
+                                        if j % 3 == 0 else {})}
 
 
 def _form(b: bytes, form: str):
+    if form == "HEX":
+        return b.hex().upper()
     return b.hex() if form == "hex" else b
 
 
